@@ -25,6 +25,7 @@
 #include "main.h"               /* bs100k */
 #include "encode.h"             /* encode() */
 #include "process.h"            /* struct process */
+#include "verif.h"              /* verification hooks (off by default) */
 
 /* transmit threshold */
 #define TRANSM_THRESH 2
@@ -96,6 +97,7 @@ do_collect(void)
   iblk->next += wblk->weight;
 
   if (0u < iblk->left) {
+    VERIF_REACH("c.collect.split");
     ++wblk->next.minor;
     ++iblk->pos.minor;
     sched_lock();
@@ -165,6 +167,7 @@ do_collect_seq(void)
     iblk->next += wblk->size;
 
     if (0u < iblk->left) {
+      VERIF_REACH("c.collect_seq.split");
       ++wblk->next.minor;
       ++iblk->pos.minor;
       sched_lock();
@@ -180,6 +183,7 @@ do_collect_seq(void)
   }
 
   if (!done) {
+    VERIF_REACH("c.collect_seq.unfinished");
     sched_lock();
     collect_token = true;
     unfinished_work = wblk;
@@ -213,6 +217,10 @@ do_transmit(void)
   struct work_blk *wblk;
 
   wblk = dequeue(trans_q);
+#ifdef KJN_LBZIP2_VERIF
+  if (out_slots <= TRANSM_THRESH)
+    VERIF_REACH("c.transmit.reserved");
+#endif
   --out_slots;
   sched_unlock();
 
@@ -366,3 +374,26 @@ const struct process compression = {
   on_input_avail,
   on_write_complete,
 };
+
+
+#ifdef KJN_LBZIP2_VERIF
+/* Read-only probe of the compression scheduler (see verif.h). */
+unsigned
+verif_probe_compress(struct verif_q *q, unsigned max, long *st)
+{
+  unsigned n = 0;
+
+#define Q(x) if (n < max) { q[n].name = #x; q[n].root = x.root;       \
+    q[n].size = x.size; q[n].elem = sizeof(*x.root); n++; }
+  Q(coll_q);
+  Q(trans_q);
+  Q(reord_q);
+#undef Q
+  st[0] = collect_token;
+  st[1] = unfinished_work != NULL;
+  st[2] = (long)order.major;
+  st[3] = (long)order.minor;
+  st[4] = (long)next_id;
+  return n;
+}
+#endif
